@@ -686,19 +686,31 @@ package modules
 //@   nopanic off
 //@   modifies *
 //@   ensures old(t.canceled) || old(isSet(t.module.stopFlag)) ==> !ok
+// a refused task is left as it is, and no list is touched
+//@   ensures !ok ==> t.queueElement == old(t.queueElement) && t.prioritizedQueueElement == old(t.prioritizedQueueElement) && lsInserts == old(lsInserts) && lsFrontElem == old(lsFrontElem)
 
-// a task is entered into a queue only if it is active, and at most once per queue
+// a task is entered into a queue only if it is active, and at most once per queue: an active
+// task that is not yet waiting is placed at the back of its queue (exactly one insertion, its
+// element is remembered); one that is already waiting keeps its place; an inactive one is not
+// entered. (Outcome over the list trace ghosts; the site clauses pin the same down call by call.)
 //@ func (*Task).Queue
 //@   requires t != nil
 //@   nopanic off
 //@   modifies *
 //@   ghost var prepped bool = false
 //@   ghost var pushes int = 0
+//@   ghost var had *list.Element = nil
+//@   ghost var ins0 int = 0
 //@   at after (*Task).prepForQueueing ghost prepped = ret0
-//@   at call (*List).PushBack assert prepped && arg0 == taskQueue && asType(arg1, *Task) == t && t.queueElement == nil && pushes == 0
-//@   at call (*List).PushBack ghost pushes = pushes + 1
-//@   at store queueElement assert pushes == 1 && value != nil
+//@   at after (*Task).prepForQueueing ghost had = t.queueElement
+//@   at after (*Task).prepForQueueing ghost ins0 = lsInserts
+//@   at optional call (*List).PushBack assert prepped && arg0 == taskQueue && asType(arg1, *Task) == t && t.queueElement == nil && pushes == 0
+//@   at optional call (*List).PushBack ghost pushes = pushes + 1
+//@   at optional store queueElement assert pushes == 1 && value != nil
 //@   ensures r0 == t
+//@   ensures prepped && had != nil ==> t.queueElement == had && lsInserts == ins0
+//@   ensures prepped && had == nil ==> t.queueElement != nil && lsInserts == ins0 + 1 && lsBackList == taskQueue && lsBackElem == t.queueElement && asType(elemValue(t.queueElement), *Task) == t
+//@   ensures !prepped ==> t.queueElement == old(t.queueElement) && lsInserts == old(lsInserts)
 
 //@ func (*Task).QueuePrioritized
 //@   requires t != nil
@@ -706,22 +718,38 @@ package modules
 //@   modifies *
 //@   ghost var prepped bool = false
 //@   ghost var pushes int = 0
+//@   ghost var had *list.Element = nil
+//@   ghost var ins0 int = 0
 //@   at after (*Task).prepForQueueing ghost prepped = ret0
-//@   at call (*List).PushBack assert prepped && arg0 == prioritizedTaskQueue && asType(arg1, *Task) == t && t.prioritizedQueueElement == nil && pushes == 0
-//@   at call (*List).PushBack ghost pushes = pushes + 1
-//@   at store prioritizedQueueElement assert pushes == 1 && value != nil
+//@   at after (*Task).prepForQueueing ghost had = t.prioritizedQueueElement
+//@   at after (*Task).prepForQueueing ghost ins0 = lsInserts
+//@   at optional call (*List).PushBack assert prepped && arg0 == prioritizedTaskQueue && asType(arg1, *Task) == t && t.prioritizedQueueElement == nil && pushes == 0
+//@   at optional call (*List).PushBack ghost pushes = pushes + 1
+//@   at optional store prioritizedQueueElement assert pushes == 1 && value != nil
 //@   ensures r0 == t
+//@   ensures prepped && had != nil ==> t.prioritizedQueueElement == had && lsInserts == ins0
+//@   ensures prepped && had == nil ==> t.prioritizedQueueElement != nil && lsInserts == ins0 + 1 && lsBackList == prioritizedTaskQueue && lsBackElem == t.prioritizedQueueElement && asType(elemValue(t.prioritizedQueueElement), *Task) == t
+//@   ensures !prepped ==> t.prioritizedQueueElement == old(t.prioritizedQueueElement) && lsInserts == old(lsInserts)
 
-// as soon as possible: to the front of the prioritized queue - inserted if absent, moved if present
+// as soon as possible: an active task ends up at the front of the prioritized queue - inserted
+// there if it was not waiting, moved there if it was (latest request first)
 //@ func (*Task).StartASAP
 //@   requires t != nil
 //@   nopanic off
 //@   modifies *
 //@   ghost var prepped bool = false
+//@   ghost var had *list.Element = nil
+//@   ghost var ins0 int = 0
 //@   at after (*Task).prepForQueueing ghost prepped = ret0
-//@   at call (*List).PushFront assert prepped && arg0 == prioritizedTaskQueue && asType(arg1, *Task) == t && t.prioritizedQueueElement == nil
-//@   at call (*List).MoveToFront assert prepped && arg0 == prioritizedTaskQueue && arg1 == t.prioritizedQueueElement && arg1 != nil
+//@   at after (*Task).prepForQueueing ghost had = t.prioritizedQueueElement
+//@   at after (*Task).prepForQueueing ghost ins0 = lsInserts
+//@   at optional call (*List).PushFront assert prepped && arg0 == prioritizedTaskQueue && asType(arg1, *Task) == t && t.prioritizedQueueElement == nil
+//@   at optional call (*List).MoveToFront assert prepped && arg0 == prioritizedTaskQueue && arg1 == t.prioritizedQueueElement && arg1 != nil
 //@   ensures r0 == t
+//@   ensures prepped ==> t.prioritizedQueueElement != nil && lsFrontList == prioritizedTaskQueue && lsFrontElem == t.prioritizedQueueElement
+//@   ensures prepped && had != nil ==> t.prioritizedQueueElement == had && lsInserts == ins0
+//@   ensures prepped && had == nil ==> lsInserts == ins0 + 1 && asType(elemValue(t.prioritizedQueueElement), *Task) == t
+//@   ensures !prepped ==> t.prioritizedQueueElement == old(t.prioritizedQueueElement) && lsInserts == old(lsInserts) && lsFrontElem == old(lsFrontElem)
 
 // cancelling is final: the flag is set and the task's context is cancelled
 //@ func (*Task).Cancel
